@@ -9,7 +9,10 @@ The per-chunk functions of the real algorithms (`chunk_additive`) and whole pi(x
 checked by the other half of C03 (not in this file).
 """
 from ..runner import Stream
-from . import c09
+from . import c09, c08leaf
+
+# wp-s1phi0: PcProps/C03Leaf.lean (S1 / Phi0: the OpenMP reduction is independent of the distribution of the iterations)
+EXTRA_MODULES = ["C03Leaf"]
 
 RULE = ("same range handed out under team sizes 1..64 x seeded return orders x print on/off x duration alphabets; "
         "every complete history must sum to f[start,limit) (closed form), model must accept and agree on chunk count, "
@@ -54,7 +57,7 @@ def streams(ctx):
             for pr in (0, 1):
                 ac.append("lbac %d %d %d %d %d %d %d %d" % (sq, y, t, pr, rng.getrandbits(32), cap, rng.choice((0, 1, 2, 3)), 0))
     return [c09.make_stream("lbs2-teams", s2, ctx=ctx), c09.make_stream("lbp2-teams", p2, ctx=ctx),
-            c09.make_stream("lbac-teams", ac, ctx=ctx)] + granted_streams(ctx)
+            c09.make_stream("lbac-teams", ac, ctx=ctx)] + granted_streams(ctx) + c08leaf.c03_streams(ctx)
 
 
 def granted_streams(ctx):
@@ -133,6 +136,12 @@ def search(ctx, proof_broken, bad, dis):
                        dict(failing_input=d["op"], expected=d["model"], observed=d["impl"], stream=d["stream"],
                             env=d.get("env"), key="granted:" + d["op"].split("   ")[0].replace(" ", "_"),
                             replay_hint="OMP_THREAD_LIMIT=<n> <cache>/rel/pcharness  <<< '<op>'   vs the same without the limit"))
+    # wp-s1phi0: the leaf-loop streams compare with a PROVED value: a disagreement is a failing input
+    leaf = [d for d in rest if d.get("stream", "").startswith("leafloops")]
+    if leaf:
+        from ..runner import default_search
+        default_search(ctx, None, [], leaf)
+        rest = [d for d in rest if d not in leaf]
     if rest or proof_broken or bad:
         return c09.search(ctx, proof_broken, bad, rest)
     return True
